@@ -107,5 +107,7 @@ EHolds(p, r)   == EApplies(p, r) => r.acc
 RangeAgrees(p, r) == (r.acc /\ r.present /\ r.isInt /\ RangeDecides(p)) => (XsdIntValid(p, r.la, r.ld) = r.attrValid)
 
 (* read record  r = [pair, tok, lexValid, readOk, exc] : C  every schema-valid lexical alternative is readable *)
-CHolds(p, r) == r.lexValid => r.readOk
+\* ... and read as the number it denotes: a whole-percent form "N%" reads as the same value as the plain integer of that number (field
+\* sameAsPlain of the record; TRUE where the token is no percent form or the plain spelling is not valid for the type)
+CHolds(p, r) == r.lexValid => (r.readOk /\ r.sameAsPlain)
 =============================================================================
